@@ -321,6 +321,12 @@ def call_lib(I, name, args, kwargs, node):
                 vals.append(v)
             return vals[0] if len(vals) == 1 else TupS(vals)
         return Fn("py", impl=agetter, name="attrgetter")
+    if name in ("os.environ.get", "os.getenv") and getattr(I, "environ", None) is not None and a and isinstance(a[0], Const):
+        # the process environment as the evaluation is told to see it: nothing set / every variable the package asks for set
+        I.environ_reads.append(a[0].v)
+        if I.environ == "unset":
+            return a[1] if len(a) > 1 else kwargs.get("default", Const(None))
+        return Const(I.environ)
     if name in ("functools.lru_cache", "functools.cache"):
         # within one evaluation a memoised function gives what the function gives (what a memo keeps BETWEEN opens is C10-W3's business)
         if a and I.is_callable(a[0]) and not kwargs:
